@@ -98,6 +98,33 @@ theorem timedLoop_complete (σ : Nat → Status) (late : Nat → Bool) :
       simp only [this.1, this.2]
       exact ih (k+1) _ r (by omega) (by omega) h3 hl (fun j hj1 hj2 => h4 j (by omega) hj2)
 
+theorem givenLoop_sound (σ : Nat → Status) (given : Option Nat) :
+    ∀ (n k : Nat) (acc : List (Nat × Status)) (r : Nat), (givenLoop σ given n k acc).solved = some r →
+      (given = some r ∨ σ r = .optimal) ∧ k ≤ r ∧ r < k + n ∧
+        ∀ j, k ≤ j → j < r → σ j = .infeasible ∧ given ≠ some j := by
+  intro n
+  induction n with
+  | zero => intro k acc r h; simp [givenLoop] at h
+  | succ n ih =>
+    intro k acc r h
+    unfold givenLoop at h
+    split at h
+    · rename_i hg
+      simp at h; subst h
+      exact ⟨Or.inl hg, Nat.le_refl _, by omega, fun j h1 h2 => by omega⟩
+    · rename_i hg
+      split at h
+      · rename_i hk
+        simp at h; subst h
+        exact ⟨Or.inr hk, Nat.le_refl _, by omega, fun j h1 h2 => by omega⟩
+      · rename_i hk
+        obtain ⟨h1, h2, h3, h4⟩ := ih (k+1) _ r h
+        refine ⟨h1, by omega, by omega, fun j hj1 hj2 => ?_⟩
+        by_cases hjk : j = k
+        · subst hjk; exact ⟨hk, hg⟩
+        · exact h4 j (by omega) hj2
+      · simp at h
+
 theorem npoLoop_answer (cfg : NpoCfg) (σ : Nat → Status) (obj : Nat → Rat) (late : Nat → Bool) :
     ∀ (n k : Nat) (prev : Option Rat) (found : Bool) (acc : List (Nat × Status)) (r : Nat),
       (npoLoop cfg σ obj late n k prev found acc).answer = some r → σ r = .optimal ∧ k ≤ r ∧ r < k + n := by
